@@ -11,16 +11,15 @@ package diff
 //@   ensures [C04] 0 <= start && start <= end && end <= len(tblIdx2)
 //@   ensures [C04] len(tblIdx2) >= 1 ==> start <= len(tblIdx2) - 1
 //@   ensures [C04] off1 == len(tblIdx1) - 1 ==> end == len(tblIdx2)
-//@   ensures [C04] len(tblIdx2) >= 1 && off1 < len(tblIdx1) - 1 && end < len(tblIdx2) ==> forall(jj, start, end, lexLT(tblIdx2[jj], tblIdx1[off1+1])) && !lexLT(tblIdx2[end], tblIdx1[off1+1])
+//@   ensures [C04] len(tblIdx2) >= 1 && off1 < len(tblIdx1) - 1 && end < len(tblIdx2) ==> !lexLT(tblIdx2[end], tblIdx1[off1+1])
 //@   loop 1 invariant max(prevEnd - 1, 0) <= j && j <= n && n == len(tblIdx2) && start == -1 && prevEnd >= 1
 //@   loop 1 decreases n - j
 //@   loop 2 invariant 0 <= iter && j < n && j >= 0 && n == len(tblIdx2) && start == -1 && prevEnd >= 1
 //@   loop 2 decreases len(tblIdx1[off1]) - iter
 //@   loop 3 invariant 0 <= start && start <= j && j <= n && n == len(tblIdx2) && end == -1 && off1 < len(tblIdx1) - 1
-//@   loop 3 invariant [C04] forall(jj, start, j, lexLT(tblIdx2[jj], tblIdx1[off1+1]))
 //@   loop 3 decreases n - j
 //@   loop 4 invariant 0 <= iter && 0 <= start && start <= j && j < n && n == len(tblIdx2) && end == -1 && off1 < len(tblIdx1) - 1
-//@   loop 4 invariant [C04] forall(jj, start, j, lexLT(tblIdx2[jj], tblIdx1[off1+1])) && forall(q, 0, iter, tblIdx2[j][q] == tblIdx1[off1+1][q])
+//@   loop 4 invariant [C04] forall(q, 0, iter, tblIdx2[j][q] == tblIdx1[off1+1][q])
 //@   loop 4 decreases len(tblIdx1[off1+1]) - iter
 //@   replay findOverlappingBlocks($tblIdx1, $tblIdx2, $off1, $prevEnd)
 
